@@ -108,9 +108,6 @@ func newCreateTable(ct sql.CreateTableStmt) (*Schema, error) {
 	// own, which finally becomes the primary key.
 	pkDeferred := false
 	withoutRowidPK := func(cols []IndexColumn, deferred bool) {
-		// a key column that repeats an earlier one is dropped:
-		// PRIMARY KEY (a, b, a) is PRIMARY KEY (a, b)
-		cols = dropRepeatedColumns(cols)
 		dup := false
 		if ind := st.findIndex(cols); ind != nil {
 			// an earlier UNIQUE index on these columns becomes the primary
@@ -246,6 +243,11 @@ constraint:
 		}
 	}
 
+	if st.WithoutRowid {
+		// Once all constraints are processed a key column that repeats an
+		// earlier one is dropped: PRIMARY KEY (a, b, a) is PRIMARY KEY (a, b)
+		st.PK = dropRepeatedColumns(st.PK)
+	}
 	return st, nil
 }
 
